@@ -148,6 +148,24 @@ def _fill_of(stmts, L, kind, temps=None):
             body = [_Inline(tmp, st.value).visit(x) for x in rest]
             temps.add(tmp)
             continue
+        if len(body) > 1 and isinstance(st, ast.If) and not st.orelse and \
+                len(st.body) == 1 and isinstance(st.body[0], ast.Assign) and \
+                len(st.body[0].targets) == 1 and \
+                isinstance(st.body[0].targets[0], ast.Name) and \
+                st.body[0].targets[0].id != L and _call_free(st.test) and \
+                _call_free(st.body[0].value) and not _mentions(st, L):
+            # a conditional rebinding `if c: x = A` before the fill: x is
+            # `A if c else x` from here on
+            tmp = st.body[0].targets[0].id
+            val = ast.IfExp(test=st.test, body=st.body[0].value,
+                            orelse=ast.Name(id=tmp, ctx=ast.Load()))
+            rest = body[1:]
+            if any(isinstance(x, (ast.Assign, ast.AugAssign, ast.For)) and
+                   (_names(x, ast.Store) & (_names(val) | {tmp})) for x in rest):
+                raise _NoFold()
+            body = [_Inline(tmp, val).visit(x) for x in rest]
+            temps.add(tmp)
+            continue
         if len(body) != 1:
             raise _NoFold()
         if isinstance(st, ast.If) and not st.orelse:
@@ -1175,6 +1193,34 @@ class _Spell(ast.NodeTransformer):
             self.changed = True
             return ast.copy_location(ast.Attribute(
                 value=node.args[0], attr=node.args[1].value, ctx=ast.Load()), node)
+        # f(*map(F, X)) is f(*[F(c) for c in X]); list(map(F, X)) likewise
+        def is_map(e):
+            return isinstance(e, ast.Call) and isinstance(e.func, ast.Name) and \
+                e.func.id == 'map' and len(e.args) == 2 and not e.keywords and \
+                isinstance(e.args[0], (ast.Name, ast.Attribute)) and \
+                not isinstance(e.args[1], ast.Starred)
+
+        def comp(m):
+            c = ast.ListComp(
+                elt=ast.Call(func=m.args[0], args=[ast.Name(id='_m', ctx=ast.Load())],
+                             keywords=[]),
+                generators=[ast.comprehension(target=ast.Name(id='_m', ctx=ast.Store()),
+                                              iter=m.args[1], ifs=[], is_async=0)])
+            ast.copy_location(c, m)
+            ast.fix_missing_locations(c)
+            return c
+        for k, a in enumerate(node.args):
+            if isinstance(a, ast.Starred) and is_map(a.value):
+                node.args[k] = ast.copy_location(ast.Starred(value=comp(a.value),
+                                                             ctx=ast.Load()), a)
+                self.changed = True
+        if isinstance(node.func, ast.Name) and node.func.id in ('list', 'tuple') and \
+                len(node.args) == 1 and not node.keywords and is_map(node.args[0]):
+            c = comp(node.args[0])
+            self.changed = True
+            if node.func.id == 'list':
+                return c
+            node.args = [c]
         return node
 
     def _one_star(self, node, name):
@@ -1278,6 +1324,8 @@ def normalize(func):
         new.body[k] = sp.visit(st)
     if sp.changed:
         changed = True
+        for st in new.body:
+            alpha(st)
     if not changed:
         return func
     ast.fix_missing_locations(new)
